@@ -15,7 +15,7 @@ Definition trie_prefixes (keys : list str) (q : str) : list str :=
   filter (fun k => match k with [] => false | _ => byte_prefix k q end) keys.
 Definition lookup_bytes (keys : list str) (q : str) : list str := trie_prefixes keys q.
 Definition lookup (keys : list str) (q : str) : list str :=
-  filter (fun k => on_boundary k q) (trie_prefixes keys q).
+  filter (fun k => on_boundary_or_slash k q) (trie_prefixes keys q).
 Definition lookup_sel (bnd : bool) := if bnd then lookup else lookup_bytes.
 
 Definition mem_str (s : str) (l : list str) := existsb (str_eqb s) l.
